@@ -463,6 +463,28 @@ def run_case(case, res):
                 m.use(k)
                 m.use(k)                # the store through the alias and the lookup just made
                 res.count("shallow_copies_that_are_aliases")
+                if n >= cap:
+                    # the copy is an alias: a NEW key stored through it (an eviction) shows in the original exactly as in the copy
+                    newk = 10 ** 9 + step          # a key no history uses
+                    before_keys = set(m.val)
+                    got = _guard("store of a new key through the alias", n, lambda: c2.__setitem__(newk, step))
+                    l1, l2 = _guard("list(cache)", n, lambda: list(c)), _guard("list(copy)", n, lambda: list(c2))
+                    if got[0] != "ok" or l1[0] != "ok" or l2[0] != "ok" or sorted(map(repr, l1[1])) != sorted(map(repr, l2[1])):
+                        raise Violation("content-mismatch", f"a new key stored through copy.copy (an alias a moment ago): original lists {l1}, "
+                                        f"the copy lists {l2}", {})
+                    for kk in l1[1]:
+                        a1, a2 = _guard("lookup", n, lambda: c[kk]), _guard("lookup", n, lambda: c2[kk])
+                        if a1[0] != "ok" or a1 != a2:
+                            raise Violation("lookup-value", f"after an eviction through copy.copy (an alias): the original lists {kk!r} and answers "
+                                            f"{a1}, the copy answers {a2}", {})
+                    gone = before_keys - set(l1[1])
+                    if len(gone) != 1 or newk not in l1[1]:
+                        raise Violation("wrong-victim", f"storing a new key through the alias left keys {l1[1]!r} (before: {sorted(map(repr, before_keys))})", {})
+                    m.drop(next(iter(gone)))
+                    m.val[newk], m.lo[newk], m.hi[newk] = step, 1, 1
+                    for kk in l1[1]:
+                        m.use(kk)
+                        m.use(kk)
             elif now == ("ok", m.val[k]):
                 m.use(k)                # the lookup just made
                 res.count("shallow_copies_that_are_independent")
